@@ -12,10 +12,13 @@ EXPLANATION = ('Decidable part: in peak-retention months each non-zero peak yiel
                'monthly peak and peak day equal those of the raw profile (first occurrence); the 48 h window handed to the peak simulation '
                'is the day before and the day of the peak (31 December for 1 January). Duration units (dur_*): the real find_peak_durations, '
                'perform_current_month_simulation and simulate_hourly run on a raw profile with a symbolic peak or previous-day load and the '
-               'concrete g-function of a real borehole; interp1d by contract; every reported duration is finite, positive and at most 48 h.')
-OUTSIDE = ('the Cullin-Spitler equality itself (numerical g_sts): in the pulse units the duration is a stub value in (0,48]. The bound 0 < duration <= 48 h '
-           'is decided separately by the dur_* units for concrete short-time responses of real boreholes and one symbolic load magnitude per '
-           'unit (catalogue of positions); other load shapes and boreholes are outside the claim.')
+               'concrete g-function of a real borehole; interp1d by contract; every reported duration is finite, positive and at most 48 h, '
+               'and (where peak and average are concrete) is the time at which the constant (peak - average) response, linear between hours, '
+               'equals the maximum of the peak-scaled two-day response recomputed from the raw profile (relative 1e-9).')
+OUTSIDE = ('in the pulse units the duration is a stub value in (0,48]. The duration bound and the Cullin-Spitler equivalence are decided by the '
+           'dur_* units for concrete short-time responses of real boreholes and one symbolic load magnitude per unit (catalogue of positions); '
+           'the equivalence only where peak and average are concrete (monthly peak concrete, symbolic load in the previous month, no window '
+           'load above the peak) - with a symbolic divisor z3 answers unknown. Other load shapes and boreholes are outside the claim.')
 KEYS = ['pulses']
 
 
